@@ -39,6 +39,9 @@ def is_framed(node):
         'sapling_state',
         'sapling_transaction',
         'sapling_transaction_deprecated',
+        'constant',
+        'Lambda_rec',
+        'Ticket',
     }:
         return True
     elif node['prim'] in {
@@ -60,6 +63,9 @@ def is_framed(node):
         'bls12_381_fr',
         'chain_id',
         'never',
+        'chest',
+        'chest_key',
+        'tx_rollup_l2_address',
     }:
         return 'annots' in node
     return False
